@@ -240,6 +240,19 @@ Proof.
   - exfalso. apply (Htail _ H1). cbn [fst] in Hn. now rewrite Hn.
 Qed.
 
+(* ... positionally: the names of the declarations do not repeat *)
+Lemma wf_gdecls_nodup : forall G0 ds es, wf_gdecls G0 ds es -> NoDup (map (fun d => gname (fst d)) ds).
+Proof.
+  induction 1 as [G | G d off [k e] r es Hd Hr IH]; [constructor|]. cbn [map fst]. constructor; [|exact IH].
+  destruct (wf_gdecl_name _ _ _ _ Hd) as [Hk _]. cbn [fst] in Hk. rewrite Hk. intros Hin.
+  apply in_map_iff in Hin as [[g' o'] [E Hin]]. cbn [fst] in E.
+  destruct (wf_gdecls_in' _ _ _ Hr _ _ Hin) as [Gi [ke [Hw [_ [_ Hsub]]]]].
+  destruct (wf_gdecl_name _ _ _ _ Hw) as [Hk' _]. rewrite Hk' in E. injection E as E.
+  destruct (wf_gdecl_fresh _ _ _ _ Hw) as [Hf _]. rewrite E in Hf.
+  destruct (wf_gdecl_fresh _ _ _ _ Hd) as [Hf0 _]. cbn [fst] in Hf0.
+  rewrite (Hsub k e) in Hf; [discriminate|]. now rewrite lookup_app, Hf0, text_eqb_refl.
+Qed.
+
 (* an entry of the table is initial or made from a declaration of its kind *)
 Lemma wf_gdecls_conv : forall G0 ds es, wf_gdecls G0 ds es -> forall x v,
   lookup (G0 ++ es) x = Some v ->
@@ -314,6 +327,12 @@ Proof. intros [[es [Hwf _]] _]. eapply wf_gdecls_unique; eauto. Qed.
 Theorem well_typed_conv pr G : well_typed pr G -> forall x v, lookup G x = Some v ->
   lookup initialized x = Some v \/ exists g off, In (g, off) (pg_decls pr) /\ gname g = Some x /\ kind_match g v.
 Proof. intros [[es [Hwf [-> _]]] _]. eapply wf_gdecls_conv; eauto. Qed.
+
+Theorem well_typed_nodup pr G : well_typed pr G -> NoDup (map (fun d => gname (fst d)) (pg_decls pr)).
+Proof. intros [[es [Hwf _]] _]. eapply wf_gdecls_nodup; eauto. Qed.
+
+Lemma well_typed_init pr G : well_typed pr G -> forall x v, lookup initialized x = Some v -> lookup G x = Some v.
+Proof. intros [[es [_ [-> _]]] _] x v H. now apply lookup_app_l. Qed.
 
 (* ---------------------------------------------------------------------------------------- *)
 (* predefined entries                                                                        *)
@@ -515,3 +534,182 @@ Proof.
     + apply (Hloc ia ib); auto; [apply in_or_app; now right | apply in_or_app; now left | now rewrite Hrb].
     + apply (Hloc ia ib); auto; [apply in_or_app; now right | apply in_or_app; now right | now rewrite Hrb].
 Qed.
+
+
+(* ---- the key relation is an equivalence ---- *)
+Lemma samekey_sym x o : samekey x o = true -> samekey o x = true.
+Proof.
+  intros H. apply samekey_spec in H as [H1 [H2 H3]]. apply samekey_spec. repeat split; auto.
+  intros Hc. symmetry. apply H3. congruence.
+Qed.
+
+Lemma samekey_trans x y z : samekey x y = true -> samekey y z = true -> samekey x z = true.
+Proof. intros H1 H2. now rewrite <- (samekey_right _ _ H2 x). Qed.
+
+(* ---- declaring occurrences exist ---- *)
+Lemma local_roles b : existsb (role_eqb (o_role b)) [RParamDecl; RVarDecl] = true <-> is_decl (o_role b) = true /\ cls (o_role b) = CLocal.
+Proof. destruct (o_role b); cbn; intuition discriminate. Qed.
+
+(* a parameter, variable or variable use has a declaring occurrence with its key *)
+Lemma local_has_decl x : In x occs -> cls (o_role x) = CLocal ->
+  exists b, In b occs /\ is_decl (o_role b) = true /\ samekey b x = true.
+Proof.
+  intros Hx Hc. destruct (occ_decl x Hx) as [g [D [Hg Ho]]]. pose proof (well_typed_facts pr G Hwt _ Hg) as Hf.
+  unfold decl_facts in Hf. cbn [fst snd] in Hf. destruct g as [td|pd|inf]; [| |contradiction].
+  - apply link_decl_type in Ho as [_ [i Hr _ _ | i te0 toff Hr _ _ _ _]]; rewrite Hr in Hc; discriminate.
+  - destruct Hf as [name [pe [Hn [Hl [Hpn [Hinit [Hty [Hk [Hnd [Hv Hcl]]]]]]]]]].
+    assert (Hself : is_decl (o_role x) = true -> exists b, In b occs /\ is_decl (o_role b) = true /\ samekey b x = true).
+    { intros Hd. exists x. split; [exact Hx|]. split; [exact Hd | apply samekey_refl]. }
+    apply link_decl_proc in Ho as [Hp [i Hr Hi Hid | i Hr Hi Hid _ | i Hr Hi Hid _ | i Hr Hi Hid _ | i Hr Hi Hid _ | i Hr Hi Hid _ | i Hr Hi Hid _]];
+      rewrite Hr in Hc; try discriminate Hc.
+    + apply Hself. now rewrite Hr.
+    + apply Hself. now rewrite Hr.
+    + specialize (Hv _ Hi). unfold is_local in Hv. apply lookup_some_keys in Hv. rewrite Hk in Hv.
+      apply in_map_iff in Hv as [j [Hj Hjin]]. destruct (local_occ_of_name pd D j Hjin) as [a [Ha [Hida [Hda [Hca Hpa]]]]].
+      exists a. split; [exact (in_occs _ _ _ Hg Ha)|]. split; [exact Hda|]. apply samekey_spec.
+      rewrite Hca, Hr. cbn [cls]. split; [reflexivity|].
+      split; [rewrite (o_name_shift _ _ _ Hida), (o_name_shift _ _ _ Hid); exact Hj|]. intros _. now rewrite Hpa, Hp.
+Qed.
+
+(* a global name that is not predefined has a declaring occurrence of its kind *)
+Lemma global_decl_occ x v : lookup G x = Some v -> lookup initialized x = None ->
+  exists a, In a occs /\ o_name a = x /\ o_role a = match v with GTypeE _ => RTypeDecl | GProcE _ => RProcDecl end.
+Proof.
+  intros Hl Hi. destruct (well_typed_conv pr G Hwt _ _ Hl) as [H|[g [off [Hin [Hn Hk]]]]]; [congruence|].
+  destruct g as [td|pd|inf], v as [te|pe]; try contradiction; unfold gname in Hn; cbn [gdecl_name] in Hn.
+  - destruct (td_name td) as [i|] eqn:E; [|discriminate]. injection Hn as Hn. destruct (name_occ_type td off i E) as [a [Ha [Hid Hr]]].
+    exists a. split; [exact (in_occs _ _ _ Hin Ha)|]. split; [now rewrite (o_name_shift _ _ _ Hid) | exact Hr].
+  - destruct (pd_name pd) as [i|] eqn:E; [|discriminate]. injection Hn as Hn. destruct (name_occ_proc pd off i E) as [a [Ha [Hid Hr]]].
+    exists a. split; [exact (in_occs _ _ _ Hin Ha)|]. split; [now rewrite (o_name_shift _ _ _ Hid) | exact Hr].
+Qed.
+
+Lemma find_declaring_some roles name proc b : find_declaring occs roles name proc = Some b ->
+  In b occs /\ existsb (role_eqb (o_role b)) roles = true /\ o_name b = name
+  /\ match proc with Some p => o_proc b = p | None => True end.
+Proof.
+  unfold find_declaring. intros H. apply find_some in H as [Hin H]. apply andb_true_iff in H as [H H3]. apply andb_true_iff in H as [H1 H2].
+  apply text_eqb_eq in H2. repeat split; auto. destruct proc; [now apply opt_text_eqb_eq | exact I].
+Qed.
+
+Lemma find_declaring_not_none roles name proc a : In a occs -> existsb (role_eqb (o_role a)) roles = true -> o_name a = name ->
+  match proc with Some p => o_proc a = p | None => True end -> find_declaring occs roles name proc <> None.
+Proof.
+  intros Hin H1 H2 H3. unfold find_declaring. apply (find_not_none _ _ a Hin). rewrite H1, H2, text_eqb_refl. cbn [andb].
+  destruct proc; [apply opt_text_eqb_eq; exact H3 | reflexivity].
+Qed.
+
+(* the tree-only binding of Spec/Nav.v on a well-typed tree *)
+Theorem binding_spec o : In o occs ->
+  match binding occs o with
+  | Some b => In b occs /\ is_decl (o_role b) = true /\ samekey b o = true
+  | None => cls (o_role o) <> CLocal /\ lookup initialized (o_name o) <> None
+  end.
+Proof.
+  intros Ho. destruct (occ_table o Ho) as [Ht [Hcall _]].
+  assert (Hglob : forall r v, lookup G (o_name o) = Some v -> cls (o_role o) <> CLocal ->
+            r = match v with GTypeE _ => RTypeDecl | GProcE _ => RProcDecl end -> cls r = cls (o_role o) ->
+            match find_declaring occs [r] (o_name o) None with
+            | Some b => In b occs /\ is_decl (o_role b) = true /\ samekey b o = true
+            | None => cls (o_role o) <> CLocal /\ lookup initialized (o_name o) <> None
+            end).
+  { intros r v Hl Hnl Hr Hcr. destruct (find_declaring occs [r] (o_name o) None) as [b|] eqn:E.
+    - apply find_declaring_some in E as [Hb [Hrb [Hn _]]]. split; [exact Hb|].
+      cbn [existsb] in Hrb. rewrite orb_false_r in Hrb.
+      assert (Hbr : o_role b = r) by (destruct (o_role b), r; try discriminate Hrb; reflexivity).
+      split; [rewrite Hbr, Hr; now destruct v|]. apply samekey_spec. rewrite Hbr. repeat split; auto. intros Hc. contradiction.
+    - split; [exact Hnl|]. intros Hi. destruct (lookup initialized (o_name o)) eqn:Ei; [discriminate|].
+      destruct (global_decl_occ _ _ Hl Ei) as [a [Ha [Hn Hra]]].
+      apply (find_declaring_not_none [r] (o_name o) None a Ha) in E; auto.
+      rewrite Hra, <- Hr. cbn [existsb]. now destruct r. }
+  unfold binding.
+  destruct (o_role o) eqn:Er; cbn [cls] in Ht;
+    try (split; [exact Ho|]; split; [now rewrite Er | apply samekey_refl]).
+  - (* a type identifier *)
+    destruct Ht as [te Hl]. apply (Hglob RTypeDecl _ Hl); [discriminate | reflexivity | reflexivity].
+  - (* a variable *)
+    destruct (local_has_decl o Ho) as [b0 [Hb0 [Hd0 Hk0]]]; [now rewrite Er|].
+    apply samekey_spec in Hk0 as [Hc0 [Hn0 Hp0]]. rewrite Er in Hc0, Hp0. cbn [cls] in Hc0, Hp0.
+    destruct (find_declaring occs [RParamDecl; RVarDecl] (o_name o) (Some (o_proc o))) as [b|] eqn:E.
+    + apply find_declaring_some in E as [Hb [Hrb [Hn Hp]]]. apply local_roles in Hrb as [Hdb Hcb].
+      split; [exact Hb|]. split; [exact Hdb|]. apply samekey_spec. rewrite Er. cbn [cls]. auto.
+    + exfalso. apply (find_declaring_not_none [RParamDecl; RVarDecl] (o_name o) (Some (o_proc o)) b0 Hb0) in E; auto.
+      apply local_roles. auto.
+  - (* a called name *)
+    destruct (Hcall eq_refl) as [pn [pe [Hpn [Hlp Hnone]]]]. destruct Ht as [pe' Hl].
+    destruct (find_declaring occs [RParamDecl; RVarDecl] (o_name o) (Some (o_proc o))) as [b|] eqn:E.
+    + exfalso. apply find_declaring_some in E as [Hb [Hrb [Hn Hp]]]. apply local_roles in Hrb as [Hdb Hcb].
+      destruct (occ_table b Hb) as [Tb _]. rewrite Hcb in Tb. destruct Tb as [pn' [pe2 [Hpb [Hlb Hsome]]]].
+      rewrite Hp, Hpn in Hpb. injection Hpb as <-. rewrite Hlp in Hlb. injection Hlb as <-. rewrite Hn in Hsome. contradiction.
+    + apply (Hglob RProcDecl _ Hl); [discriminate | reflexivity | reflexivity].
+Qed.
+
+Lemma decl_not_predefined b : In b occs -> is_decl (o_role b) = true -> cls (o_role b) <> CLocal -> lookup initialized (o_name b) = None.
+Proof. intros Hb. exact (proj2 (proj2 (occ_table b Hb))). Qed.
+
+Lemma class_of_name x o : In x occs -> In o occs -> cls (o_role x) <> CLocal -> cls (o_role o) <> CLocal ->
+  o_name x = o_name o -> cls (o_role x) = cls (o_role o).
+Proof.
+  intros Hx Ho Hcx Hco Hn. destruct (occ_table x Hx) as [Tx _]. destruct (occ_table o Ho) as [To _]. rewrite Hn in Tx.
+  destruct (cls (o_role x)), (cls (o_role o)); try reflexivity; try congruence; destruct Tx as [? Tx], To as [? To]; congruence.
+Qed.
+
+(* an occurrence has no declaration iff its name is predefined *)
+Theorem binding_predefined o : In o occs -> cls (o_role o) <> CLocal ->
+  match binding occs o with Some _ => false | None => true end
+  = match lookup initialized (o_name o) with Some _ => true | None => false end.
+Proof.
+  intros Ho Hc. pose proof (binding_spec o Ho) as Hb. destruct (binding occs o) as [b|].
+  - destruct Hb as [Hb [Hd Hk]]. apply samekey_spec in Hk as [Hcb [Hn _]].
+    rewrite <- Hn, (decl_not_predefined b Hb Hd); [reflexivity | now rewrite Hcb].
+  - destruct Hb as [_ Hi]. destruct (lookup initialized (o_name o)); [reflexivity | contradiction].
+Qed.
+
+Theorem binding_local o : In o occs -> cls (o_role o) = CLocal -> binding occs o <> None.
+Proof. intros Ho Hc E. pose proof (binding_spec o Ho) as Hb. rewrite E in Hb. destruct Hb as [Hb _]. contradiction. Qed.
+
+(* the entry of a global name is predefined iff the name is *)
+Theorem entry_default x ge : lookup G x = Some ge ->
+  is_default (entry_of_g ge) = match lookup initialized x with Some _ => true | None => false end.
+Proof.
+  intros Hl. destruct (lookup initialized x) as [v|] eqn:Ei.
+  - rewrite (well_typed_init pr G Hwt _ _ Ei) in Hl. injection Hl as <-. eapply initialized_default; eauto.
+  - destruct (well_typed_conv pr G Hwt _ _ Hl) as [H|[g [off [Hin [Hn Hk]]]]]; [congruence|].
+    pose proof (well_typed_facts pr G Hwt _ Hin) as Hf. unfold decl_facts in Hf. cbn [fst snd] in Hf.
+    unfold gname in Hn. destruct g as [td|pd|inf]; [| |contradiction]; cbn [gdecl_name] in Hn.
+    + destruct Hf as [name [te [Hnm [Hlk [Hten _]]]]]. rewrite Hnm in Hn. injection Hn as <-. rewrite Hlk in Hl. injection Hl as <-.
+      cbn [entry_of_g is_default]. rewrite Hten. destruct (existsb (text_eqb (id_val name)) default_entries) eqn:E; [|reflexivity].
+      apply default_initialized in E. contradiction.
+    + destruct Hf as [name [pe [Hnm [Hlk [Hpn _]]]]]. rewrite Hnm in Hn. injection Hn as <-. rewrite Hlk in Hl. injection Hl as <-.
+      cbn [entry_of_g is_default]. rewrite Hpn. destruct (existsb (text_eqb (id_val name)) default_entries) eqn:E; [|reflexivity].
+      apply default_initialized in E. contradiction.
+Qed.
+
+(* ---- K: bound to the same entity = the same key ---- *)
+Hypothesis decl_tok_inj : forall a b, In a occs -> In b occs -> is_decl (o_role a) = true -> is_decl (o_role b) = true ->
+  o_tok a = o_tok b -> samekey a b = true.
+
+Theorem same_entity_key x o : In x occs -> In o occs -> same_entity occs x o = samekey x o.
+Proof.
+  intros Hx Ho. unfold same_entity. pose proof (binding_spec x Hx) as Bx. pose proof (binding_spec o Ho) as Bo.
+  destruct (binding occs x) as [bx|], (binding occs o) as [bo|].
+  - destruct Bx as [Hbx [Hdx Hkx]]. destruct Bo as [Hbo [Hdo Hko]]. destruct (samekey x o) eqn:E.
+    + apply Nat.eqb_eq.
+      assert (Hk : samekey bx bo = true).
+      { eapply samekey_trans; [exact Hkx|]. eapply samekey_trans; [exact E | now apply samekey_sym]. }
+      unfold o_tok. now rewrite (decl_unique bx bo Hbx Hbo Hdx Hdo Hk).
+    + apply Nat.eqb_neq. intros Ht. pose proof (decl_tok_inj bx bo Hbx Hbo Hdx Hdo Ht) as Hk.
+      assert (Hxo : samekey x o = true); [|congruence].
+      eapply samekey_trans; [apply samekey_sym; exact Hkx|]. eapply samekey_trans; [exact Hk | exact Hko].
+  - destruct Bx as [Hbx [Hdx Hkx]]. destruct Bo as [Hco Hio]. symmetry. destruct (samekey x o) eqn:E; [|reflexivity]. exfalso.
+    assert (Hk : samekey bx o = true) by (eapply samekey_trans; eauto). apply samekey_spec in Hk as [Hc [Hn _]].
+    apply Hio. rewrite <- Hn. apply decl_not_predefined; auto. now rewrite Hc.
+  - destruct Bo as [Hbo [Hdo Hko]]. destruct Bx as [Hcx Hix]. symmetry. destruct (samekey x o) eqn:E; [|reflexivity]. exfalso.
+    assert (Hk : samekey bo x = true) by (eapply samekey_trans; [exact Hko | now apply samekey_sym]).
+    apply samekey_spec in Hk as [Hc [Hn _]]. apply Hix. rewrite <- Hn. apply decl_not_predefined; auto. now rewrite Hc.
+  - destruct Bx as [Hcx Hix], Bo as [Hco Hio]. destruct (text_eqb (o_name x) (o_name o)) eqn:E.
+    + apply text_eqb_eq in E. symmetry. apply samekey_spec. split; [apply class_of_name; auto|]. split; [exact E|]. intros; contradiction.
+    + symmetry. destruct (samekey x o) eqn:E'; [|reflexivity]. apply samekey_spec in E' as [_ [Hn _]].
+      rewrite Hn, text_eqb_refl in E. discriminate.
+Qed.
+
+End Keys.
